@@ -406,9 +406,63 @@ def r_identity_shortcuts(c):
         raise AnalysisError(f"only {n} identity shortcuts found (floor 2)")
 
 
+def r_bounds_consumed(c):
+    """a reduction runs over [lower, upper): wherever the package takes the pair of
+    bounds of a reduction variable apart -- the loop domain of the generated kernel,
+    the mappers over scalar expressions, the raiser -- BOTH halves are used.  Every
+    reduction the array API builds starts at 0, so dropping the lower bound (or
+    reading the upper one twice) passes every test and is wrong for the first
+    hand-written or shifted reduction"""
+    m = c.model
+    import re
+    pat_iter = re.compile(r"(\.bounds\.(items|values)\(\)|^reductions\.(items|values)\(\))$")
+    n = 0
+    for mi, fd in m.all_functions():
+        sites = []
+        for x in ast.walk(fd):
+            if isinstance(x, ast.For):
+                sites.append((x.target, x.iter, x.body))
+            elif isinstance(x, (ast.ListComp, ast.SetComp, ast.GeneratorExp, ast.DictComp)):
+                body = [x.key, x.value] if isinstance(x, ast.DictComp) else [x.elt]
+                for g in x.generators:
+                    sites.append((g.target, g.iter, body + list(g.ifs)))
+        for tgt, it, body in sites:
+            its = ast.unparse(it)
+            if its.startswith("sorted(") and its.endswith(")"):
+                its = its[len("sorted("):-1]
+            if not pat_iter.search(its):
+                continue
+            if its.startswith("reductions.") and fd.name != "domain_for_shape":
+                continue
+            pairs = [t for t in ast.walk(tgt) if isinstance(t, ast.Tuple) and len(t.elts) == 2
+                     and all(isinstance(e, ast.Name) for e in t.elts)]
+            # .items(): (name, (lo, hi)) -- the pair is the inner tuple; .values(): (lo, hi)
+            pair = None
+            if ".values()" in its and isinstance(tgt, ast.Tuple) and pairs:
+                pair = pairs[0]
+            elif ".items()" in its and isinstance(tgt, ast.Tuple) and len(tgt.elts) == 2 \
+                    and isinstance(tgt.elts[1], ast.Tuple) and tgt.elts[1] in pairs:
+                pair = tgt.elts[1]
+            if pair is None:
+                continue          # the pair is kept whole (passed on, hashed, ...)
+            n += 1
+            loaded = {y.id for b in body for y in ast.walk(b)
+                      if isinstance(y, ast.Name) and isinstance(y.ctx, ast.Load)}
+            qn = m.qualname(fd).replace("pytato.", "", 1)
+            for half, e in zip(("lower", "upper"), pair.elts):
+                c.check(e.id in loaded, "R01-TABLES", qn,
+                        f"reduction-{half}-bound-used:{ast.unparse(it)[:40]}", m.loc(mi, tgt),
+                        f"the {half} bound of a reduction variable is taken out of the pair "
+                        f"(`{e.id}`) and never used: the reduction no longer runs over "
+                        "[lower, upper)")
+    if n < 5:
+        raise AnalysisError(f"only {n} places take reduction bounds apart (floor 5)")
+
+
 SPEC = Spec(
     prop="C01",
-    rules=[r_dispatch, r_tables, r_ctor_state, r_order, r_alignment, r_identity_shortcuts],
+    rules=[r_dispatch, r_tables, r_ctor_state, r_order, r_alignment, r_identity_shortcuts,
+           r_bounds_consumed],
     floors={"R01-DISPATCH": 28, "R01-TABLES": 18, "R01-CTOR-STATE": 36, "R01-ORDER": 12},
     explanation=(
         "Decides three structural clauses of C01, not the value clause. "
@@ -427,7 +481,7 @@ SPEC = Spec(
         "over a DictOfNamedArrays in supplied order in the code-generation "
         "modules; outputs are computed in a keyed topological order; operands are "
         "generated in sorted name order. "
-        "R01-TABLES also: matmul writes each operand's batch axes as a SUFFIX of the pool of stacking indices (NumPy aligns shapes at the trailing end)."),
+        "R01-TABLES also: matmul writes each operand's batch axes as a SUFFIX of the pool of stacking indices (NumPy aligns shapes at the trailing end); wherever the pair of bounds of a reduction variable is taken apart (loop domain of the kernel, scalar-expression mappers), both halves are used."),
     not_decided=(
         "That any generated kernel computes NumPy's values, has the declared dtype, "
         "schedules or compiles: that needs executing generated code (and an OpenCL "
